@@ -480,7 +480,7 @@ pub fn run_pipeline_check(check: &str, tier: Tier, seed: u64) -> i32 {
 pub fn replay(path: &Path) -> i32 {
     crate::hook::ensure_installed();
     let file = ReplayFile::read(path);
-    if !PIPELINE_CHECKS.contains(&file.check.as_str()) && !file.extra["component"].is_null() {
+    if !PIPELINE_CHECKS.contains(&file.check.as_str()) && (!file.extra["component"].is_null() || !file.extra["miri"].is_null()) {
         return crate::components::replay(&file, path);
     }
     let (mine, harness, out) = evaluate_replay(&file, true);
